@@ -351,7 +351,7 @@ fn short(op: &IOp) -> String {
 pub fn main(ctx: &Ctx) {
     ctx.assume("an invalid-class vector that the engine accepts (e.g. Euclidean accepts tiny and huge finite vectors) is treated as an ordinary acknowledged write and must be recoverable");
     run_committed_replays(ctx, &Invalid);
-    run_pbt(ctx, &Invalid, ctx.tier.pick(1_500, 40_000));
+    run_pbt(ctx, &Invalid, ctx.tier.pick(30_000, 600_000));
     super::c03b::run(ctx);
 }
 
